@@ -25,6 +25,8 @@ fn tokens() -> Vec<(&'static str, Tk)> {
         ("[h]", Elapsed), ("[mm]", Elapsed), ("[ss]", Elapsed), ("[H]", Elapsed),
         ("\"d\"", Plain), ("\"x\"", Plain), ("\"m s\"", Plain), ("\"d_\"", Plain), ("\"y\\\"", Plain),
         ("\\d", Plain), ("\\ ", Plain), ("\\-", Plain), ("_d", Plain), ("_)", Plain),
+        // a semicolon that is text (quoted or escaped), not a section separator
+        ("\";\"", Plain), ("\\;", Plain),
         // an escaped escape character: the pair is one literal, what follows is a token again
         ("\\\\", Plain), ("__", Plain), ("\\_", Plain), ("_\\", Plain),
         ("[Red]", Plain), ("[Color3]", Plain), ("[>100]", Plain), ("[<=0]", Plain), ("[$-409]", Plain), ("[$\u{20ac}-407]", Plain), ("[$USD]", Plain), ("[Magenta]", Plain),
@@ -250,7 +252,7 @@ fn run_case(rep: &Report, ch: &mut Chooser, fmt: &'static str, local: &mut Vec<(
 
 pub fn check(rep: &Report) {
     let t = crate::thorough(&rep.tier);
-    rep.rule("(a) every sequence of <= 3 (thorough 5) tokens over a 56-token alphabet of the number-format grammar (digit placeholders, General/@, date/time tokens in both cases, AM/PM, elapsed [h] [mm] [ss], quoted literals incl. ones ending in _ or \\, backslash and underscore escapes, colour/condition/locale/currency brackets, separators, ';') through the real classifier vs a token-level reference (sequences mixing General/@ with date tokens or using an elapsed token after a date token are outside the grammar and skipped); all built-in ids 0-22, 37-49; (b) full product of 14 style kinds x 5 values x 1900/1904 x XF position x style index out of range x every number encoding (xlsx untyped/t=n/formula; xls NUMBER/RK forms/MULRK/FORMULA; xlsb Real/RK forms/FmlaNum) x prefix, end to end; non-trivial = non-default choice / non-empty sequence");
+    rep.rule("(a) every sequence of <= 3 (thorough 5) tokens over a 58-token alphabet of the number-format grammar (digit placeholders, General/@, date/time tokens in both cases, AM/PM, elapsed [h] [mm] [ss], quoted literals incl. ones ending in _ or \\, backslash and underscore escapes, colour/condition/locale/currency brackets, separators, ';') through the real classifier vs a token-level reference (sequences mixing General/@ with date tokens or using an elapsed token after a date token are outside the grammar and skipped); all built-in ids 0-22, 37-49; (b) full product of 14 style kinds x 5 values x 1900/1904 x XF position x style index out of range x every number encoding (xlsx untyped/t=n/formula; xls NUMBER/RK forms/MULRK/FORMULA; xlsb Real/RK forms/FmlaNum) x prefix, end to end; non-trivial = non-default choice / non-empty sequence");
     rep.assume("locale-dependent built-in ids (23-36, 50-58) are not asserted; an integer-valued RK int with a non-date style may read as Int");
     classifier_sweep(rep, if t { 5 } else { 3 });
     let stats = Mutex::new(Stats::default());
